@@ -5,6 +5,7 @@ import observe
 from chartgen import ALL_HEADERS, HEADER_KEY, outcome, section, want_pairs
 from common import rng
 from props import _notes
+from common import exc_name  # noqa: E402
 
 CONCRETE = {"T1": "ExpertSingle", "T2": "HardSingle", "T3": "ExpertDrums", "T4": "EasyGHLBass",
             "X1": "MediumKeyboard", "X2": "MediumSingle"}
@@ -97,8 +98,8 @@ def record_from_texts(cid, text, ref_text, present, poison, want, form="list"):
     refd = _track_digests(ref)
     rec = {"id": cid, "props": ["C13"], "present": list(present), "poison": sorted(poison),
            "want": ["none"] if want is None else ["some", list(want)],
-           "outcome": "chart" if kind == "chart" else type(val).__name__, "tr": [],
-           "meta": "", "sync": "", "glob": "", "uout": "chart" if uk == "chart" else type(uval).__name__,
+           "outcome": "chart" if kind == "chart" else exc_name(val), "tr": [],
+           "meta": "", "sync": "", "glob": "", "uout": "chart" if uk == "chart" else exc_name(uval),
            "metaref": observe.digest(ro["meta"]), "syncref": observe.digest(ro["sync"]), "globref": observe.digest(ro["global"])}
     if kind == "chart":
         o = observe.obs_chart(val)
